@@ -44,8 +44,8 @@ def exGapsJ : Except String GapMerge.Gaps → J
   | .ok g => gapsJ g
   | .error e => J.obj [("err", J.str e)]
 
-/-- exact value rounded down to a multiple of 2^-300 (the BEGIN row after ten squarings has ~10^5-bit terms) -/
-def roundRat (q : Rat) : Rat := ((q * ((2 : Rat) ^ 300)).floor : Rat) / ((2 : Rat) ^ 300)
+/-- exact value rounded down to a multiple of 2^-1200 (the BEGIN row after ten squarings has ~10^5-bit terms) -/
+def roundRat (q : Rat) : Rat := ((q * ((2 : Rat) ^ 1200)).floor : Rat) / ((2 : Rat) ^ 1200)
 
 def handle (cmd : String) (j : J) : Except String J :=
   match cmd with
